@@ -639,7 +639,7 @@ def exhaustive_short():
 
 
 # ------------------------------------------------------------------------------------------------ source shapes
-SHAPE_IMPORTS = ['SV.SM.IndexModel', 'SV.SM.IndexShapes', 'SV.Gen.IndexShapes_gen']
+SHAPE_IMPORTS = ['SV.SM.IndexModel', 'SV.SM.IndexShapes', 'SV.SM.IndexMaint', 'SV.Gen.IndexShapes_gen']
 SHAPE_OBLIGATIONS = {
     # Entity.__setitem__ (theorem c07_setitem_as_written: all five => the code is the model's set_item)
     'setitem_lookup_is_case_insensitive': 'ss_match_ok gen_setitem_shape',
@@ -654,6 +654,14 @@ SHAPE_OBLIGATIONS = {
     'search_star_branch_yields_exactly_the_prefix_scan': 'star_ok (sh_star gen_search_shape)',
     'search_exact_branch_yields_name_and_class_matches': 'exact_ok (sh_exact gen_search_shape)',
     'search_scans_a_snapshot_of_the_items': 'gen_search_scans_snapshot',
+    # Entity.__setitem__, the maintenance part after the lookup loop (theorem c07_setitem_maintenance_as_written)
+    'setitem_classname_branch_rekeys_by_class': 'maint_classname_ok gen_setitem_maint',
+    'setitem_worldspawn_guard_error_path_restores_the_index': 'maint_guard_error_ok gen_setitem_maint',
+    'setitem_targetname_branch_rekeys_by_target': 'maint_targetname_ok gen_setitem_maint',
+    'setitem_other_keys_leave_the_indexes_alone': 'maint_other_ok gen_setitem_maint',
+    # VMF.add_ents over an iterable argument (theorem c07_add_ents_as_written)
+    'add_ents_lists_and_indexes_each_entity_once_for_a_list_argument': 'ae_ok_reiterable gen_add_ents',
+    'add_ents_lists_and_indexes_each_entity_once_for_a_one_shot_iterable': 'ae_ok_oneshot gen_add_ents',
     # CopySet.__iter__ (theorem c07_copyset_iteration_total)
     'copyset_iter_never_iterates_the_live_set': 'iprog_never_live gen_copyset_iter',
     'copyset_iter_is_snapshot_then_late_additions': 'iprog_is_today gen_copyset_iter',
